@@ -32,10 +32,12 @@ ERRKIND = {'div0': 'div0', 'div0f': 'div0', 'ovf': 'overflow', 'sub': 'subscript
 
 
 def wrap(e, depth, r, safe=False):
-    forms = ['(3 + {e})', '(2 * ({e}))', 'ABS({e})', '(zone% + ({e}))', '(({e}) - zone%)', 'zid%(({e}))']
+    forms = ['(3 + {e})', '(2 * ({e}))', 'ABS({e})', '(zone% + ({e}))', '(({e}) - zone%)', 'zid%(({e}))',
+             # a FUNCTION runs (with a partial result pending) before the failing operation
+             '(zid%(3) + {e})', '(zone% + zid%(2) * ({e}))']
     if safe:
         # wrappers that cannot overflow again once the cause is fixed
-        forms = ['ABS({e})', '(({e}) - zone%)', 'zid%(({e}))', '(0 + ({e}))']
+        forms = ['ABS({e})', '(({e}) - zone%)', 'zid%(({e}))', '(0 + ({e}))', '(zid%(0) + {e})']
     for _ in range(depth):
         e = r.choice(forms).format(e=e)
     return e
@@ -65,7 +67,7 @@ def plan(r):
             kind = r.choice([k for k in KINDS if k not in used_once] or ['div0'])
         if mode == 'goto-resume':
             used_once.add(kind)          # the handler fixes the cause once; a second failure needs another cause
-        form = r.choice(['assign', 'print', 'call', 'store', 'strassign'] + (['if', 'for', 'select'] if mode == 'goto-resume' else []))
+        form = r.choice(['assign', 'print', 'call', 'store', 'strassign'] + (['if', 'for', 'select', 'elseif'] if mode == 'goto-resume' else []))
         if kind == 'data':
             form = 'read'
         steps.append({'k': 'fail', 'kind': kind, 'form': form, 'tag': nt(), 'depth': r.randint(0, 3)})
@@ -104,6 +106,8 @@ def stmt_text(s, r):
         return f'zs$ = "x" + STR$({e}): PRINT {t}&; zs$'
     if form == 'if':
         return f'IF ({e}) * 0 = 0 THEN\nPRINT {t}&\nEND IF'      # true whenever the expression evaluates at all
+    if form == 'elseif':
+        return f'IF zone% = 0 THEN\nPRINT 44001&\nELSEIF ({e}) * 0 = 0 THEN\nPRINT {t}&\nEND IF'
     if form == 'for':
         return f'FOR zfi% = {e} TO 0\nNEXT\nPRINT {t}&'
     if form == 'select':
